@@ -1,5 +1,50 @@
-import Rivaas.Proto
-/- Driver for C11 (stub: not built yet) -/
-def main : IO UInt32 := do
-  IO.eprintln "driver for C11 is not built yet"
-  return 2
+import Rivaas.Driver.RouteCase
+import Rivaas.Model.Compiler
+import Rivaas.Spec.CompiledClass
+/-
+Driver for C11. Case line:
+  <id> <compiled> <bloomSize> <bloomK> <versioned> <input as C01> => <obs plain engine> <obs configured engine>
+MI : Model/Radix `serve` (or the versioned variant with default options) reproduces the plain observation
+     and Model/Compiler `serveWith` reproduces the observation of the configured engine.
+S  : the two *implementation* observations are equal (the oracle of C11 is the tree engine itself).
+D  : class of the recorded finding (Spec/CompiledClass `classify11`).
+-/
+namespace Rivaas.DriverC11
+open Rivaas.Proto Rivaas.Route Rivaas.Radix Rivaas.Match Rivaas.RouteCase Rivaas.Compiler
+
+/-- FNV-1a, 64 bit (`hash/fnv.New64a`, and the inline copy in compiler/static.go) -/
+def fnv64a (bs : Bytes) : Nat :=
+  (bs.foldl (fun (h : UInt64) c => (h ^^^ UInt64.ofNat c.toNat) * 1099511628211) 14695981039346656037).toNat
+
+def pOpts : P Opts := do
+  let c ← bool
+  let s ← nat
+  let k ← nat
+  let v ← bool
+  pure { compiled := c, bloomSize := s, bloomK := k, versioned := v }
+
+def step (line : String) : String :=
+  match splitCase line with
+  | none => "? bad-line"
+  | some (id, inp, obs) =>
+    match runP (do let o ← pOpts; let c ← pCase; pure (o, c)) inp,
+          runP (do let a ← pObs; let b ← pObs; pure (a, b)) obs with
+    | some (o, c), some (oa, ob) =>
+      let sat := satOf c.satTab
+      let base : Opts := { compiled := false, bloomSize := 0, bloomK := 0, versioned := o.versioned }
+      let ma := serveWith fnv64a sat base c.script c.noRoute c.req
+      let mb := serveWith fnv64a sat o c.script c.noRoute c.req
+      let mi := oa == some ma && ob == some mb
+      -- outside the vocabulary of the property (a malformed pattern, a path without leading slash) no claim
+      let R? := specRoutes c.script
+      let inDomain := R?.isSome && c.req.path.head? == some '/'
+      let s := !inDomain || (oa.isSome && oa == ob)
+      let d := match R? with
+        | some R => if s then "-" else classify11 sat R c.req (cutAny c.req.path)
+        | none => "-"
+      verdict id mi s d (encObs ma ++ " " ++ encObs mb)
+    | _, _ => s!"{id} bad-case"
+
+end Rivaas.DriverC11
+
+def main : IO UInt32 := Rivaas.Proto.driverMain Rivaas.DriverC11.step
